@@ -28,6 +28,14 @@ type opDef struct {
 	later bool
 	// leaf: the state this operation reaches is checked but not expanded
 	leaf bool
+	// leafFrom (0 = never): like leaf, from this history length on
+	leafFrom int
+	// laterSet: the later operations of this operation (nil: laterOps)
+	laterSet []string
+}
+
+func (o *opDef) isLeafAt(length int) bool {
+	return o.leaf || (o.leafFrom > 0 && length >= o.leafFrom)
 }
 
 // laterOps follow an operation flagged `later`: what the rest of a session
@@ -104,7 +112,7 @@ func buildAlphabet() []*opDef {
 
 		// --- the language package changes before a package is created
 		{Name: "load:lisp:set-a=14:export-a", Class: "language-package-export", form: nCall("load-string",
-			nP(inPkg("lisp"), setq("a", nI(14)), nCall("export", nQS("a")))), maxLenQ: 1},
+			nP(inPkg("lisp"), setq("a", nI(14)), nCall("export", nQS("a")))), tier: 1},
 		{Name: "load:lisp:export-a", Class: "language-package-export", form: nCall("load-string",
 			nP(inPkg("lisp"), nCall("export", nQS("a"))))},
 		{Name: "set:lisp:a=15", Class: "set-qualified-language", form: setq("lisp:a", nI(15)), tier: 1},
@@ -233,42 +241,54 @@ func rebindOps() []*opDef {
 	inP := func(P string, forms ...*node) *node {
 		return nCall("load-string", nP(append([]*node{inPkg(P)}, forms...)...))
 	}
+	// A rebinding shortcut is applied while the history (it included) is at
+	// most 3 long.  At lengths 1-2 the state it reaches is expanded like any
+	// other ("after other operations"); at length 3 it is a leaf and every
+	// import of importOps is appended as operation 4 ("immediately").
+	mk := func(name, class string, form *node, tier, leafFrom int) *opDef {
+		return &opDef{Name: name, Class: class, form: form, tier: tier, maxLenQ: 3, maxLenT: 3,
+			leafFrom: leafFrom, later: true, laterSet: importOps}
+	}
 	for _, P := range []string{"p", "q", "lisp"} {
-		tier := 0
-		if P == "q" {
-			tier = 1
+		tier, leafFrom := 0, 3
+		if P != "p" {
+			tier, leafFrom = 1, 1
 		}
 		// set! at top level of P (the Package.Update path)
-		ops = append(ops, &opDef{Name: "load:" + P + ":set!-a=4", Class: "rebind:set!-toplevel",
-			form: inP(P, nCall("set!", nS("a"), nI(4))), tier: tier, maxLenQ: 3, maxLenT: 4})
+		ops = append(ops, mk("load:"+P+":set!-a=4", "rebind:set!-toplevel", inP(P, nCall("set!", nS("a"), nI(4))), tier, leafFrom))
 		// set! inside a function of P that is called from another package
-		t2 := tier
-		if P == "lisp" {
-			t2 = 1
-		}
-		ops = append(ops, &opDef{Name: "lambda-made-in:" + P + ":set!-a=4", Class: "rebind:set!-in-function",
-			form: nL(inP(P, nL(nS("lambda"), empty, nCall("set!", nS("a"), nI(4))))), tier: t2, maxLenQ: 3, maxLenT: 4})
+		ops = append(ops, mk("lambda-made-in:"+P+":set!-a=4", "rebind:set!-in-function",
+			nL(inP(P, nL(nS("lambda"), empty, nCall("set!", nS("a"), nI(4))))), tier, leafFrom))
 		// set at top level of P
-		ops = append(ops, &opDef{Name: "load:" + P + ":set-a=2", Class: "rebind:set-toplevel",
-			form: inP(P, setq("a", nI(2))), tier: 1, maxLenT: 4})
+		ops = append(ops, mk("load:"+P+":set-a=2", "rebind:set-toplevel", inP(P, setq("a", nI(2))), 1, 1))
 		if P != "lisp" {
 			// redefinition of the exported function
-			ops = append(ops, &opDef{Name: "load:" + P + ":redefun-f", Class: "rebind:defun",
-				form: inP(P, nCall("defun", nS("f"), empty, setq("a", nI(5)))), tier: tier, maxLenQ: 3, maxLenT: 4})
+			ops = append(ops, mk("load:"+P+":redefun-f", "rebind:defun", inP(P, nCall("defun", nS("f"), empty, setq("a", nI(5)))), tier, leafFrom))
 		}
 	}
 	ops = append(ops,
-		&opDef{Name: "load:p:export-m:redefmacro-m", Class: "rebind:defmacro",
-			form: inP("p", nCall("export", nQS("m")), nCall("defmacro", nS("m"), empty, nQS("f"))), tier: 1, maxLenT: 4},
-		&opDef{Name: "defun:f-set!s-a=23", Class: "defun", form: nCall("defun", nS("f"), empty, nCall("set!", nS("a"), nI(23))), tier: 1, maxLenT: 4},
-		// imports: from a package that may or may not exist yet, and an explicit
-		// re-import of the language package
-		&opDef{Name: "load:q:use-package:p", Class: "import-from-other-package", form: inP("q", nCall("use-package", nQS("p"))), minLen: 3},
-		&opDef{Name: "load:p:use-package:q", Class: "import-from-other-package", form: inP("p", nCall("use-package", nQS("q"))), tier: 1, minLen: 3},
-		&opDef{Name: "use-package:lisp", Class: "use-package-language", form: nCall("use-package", nQS("lisp")), minLen: 3},
+		mk("load:p:export-m:redefmacro-m", "rebind:defmacro",
+			inP("p", nCall("export", nQS("m")), nCall("defmacro", nS("m"), empty, nQS("f"))), 1, 1),
+		// The language package: give it a user-visible export, let a package be
+		// created (which imports it), then set! the export.  Every package
+		// created afterwards must start with the NEW value.  One leaf
+		// operation, so that the language package does not become a dimension
+		// of the quick tier's state space.
+		mk("load:lisp:set-a=14:export-a:new-package:set!-a=4", "rebind:language-export-set!",
+			inP("lisp", setq("a", nI(14)), nCall("export", nQS("a")), inPkg("tmp"), inPkg("lisp"), nCall("set!", nS("a"), nI(4))), 0, 1),
+		// imports from a package that may or may not exist yet, and an explicit
+		// re-import of the language package; leaves at lengths 3-4 and the
+		// later-operations of every rebinding shortcut
+		&opDef{Name: "load:q:use-package:p", Class: "import-from-other-package", form: inP("q", nCall("use-package", nQS("p"))), minLen: 3, maxLenQ: 4, maxLenT: 4, leafFrom: 1},
+		&opDef{Name: "load:p:use-package:q", Class: "import-from-other-package", form: inP("p", nCall("use-package", nQS("q"))), tier: 1, minLen: 3, maxLenT: 4, leafFrom: 1},
+		&opDef{Name: "use-package:lisp", Class: "use-package-language", form: nCall("use-package", nQS("lisp")), minLen: 3, maxLenQ: 4, maxLenT: 4, leafFrom: 1},
 	)
 	return ops
 }
+
+// importOps follow every rebinding shortcut as a separate later operation
+// (those that are not in the tier's alphabet are skipped).
+var importOps = []string{"use-package:p", "use-package:q", "load:q:use-package:p", "load:p:use-package:q", "in-package:p", "in-package:q", "use-package:lisp"}
 
 // errorCallOps: a call into another package whose body fails in a form that
 // is or is not the last one.  Whatever happens inside a call, when it returns
